@@ -9,6 +9,7 @@ import ast
 
 from ..src import walk, calls, call_name, last_attr, dotted, norm, loc, const, AnchorError, ExtractError, parent, unparse
 from ..effects import Universe, writes
+from ..peval import Evaluator, Obj, Unknown, Raised
 from .c13 import ClassTable, backing_fields, exclusion_list, only_raises
 
 CORE = "wntr/sim/core.py"
@@ -223,25 +224,136 @@ def sim_side(f):
 
 
 # ------------------------------------------------------------------ rules
-def action_attr_map(repo):
-    """ControlAction.__init__: public attribute -> private attribute written by run_control_action."""
-    ini = repo.func(CTRL, "ControlAction.__init__")
-    default = None
-    table = {}
-    for s in ini.body:
-        if isinstance(s, ast.Assign) and unparse(s.targets[0]) == "self._private_attribute" and isinstance(s.value, ast.Name):
-            default = s.value.id
-        cur = s
-        while isinstance(cur, ast.If):
-            t = cur.test
-            if isinstance(t, ast.Compare) and isinstance(t.left, ast.Name) and isinstance(t.ops[0], ast.Eq) and isinstance(const(t.comparators[0]), str):
-                for b in cur.body:
-                    if isinstance(b, ast.Assign) and unparse(b.targets[0]) == "self._private_attribute" and isinstance(const(b.value), str):
-                        table[const(t.comparators[0])] = const(b.value)
-            cur = cur.orelse[0] if len(cur.orelse) == 1 and isinstance(cur.orelse[0], ast.If) else None
-    if default != "attribute" or not table:
-        raise ExtractError("ControlAction.__init__: attribute map not recognised (default=%s, table=%s)" % (default, table))
-    return ini, table
+class _MapEvaluator(Evaluator):
+    """peval + the expression forms a lookup-table dispatch uses: dict displays, subscripts, dict.get/keys/values/items, `k in table`."""
+
+    def e_Dict(self, n):
+        if any(k is None for k in n.keys):
+            raise Unknown("dict unpacking")
+        return {self.ev(k): self.ev(v) for k, v in zip(n.keys, n.values)}
+
+    def e_Subscript(self, n):
+        b = self.ev(n.value)
+        if isinstance(n.slice, ast.Slice):
+            raise Unknown("slice")
+        k = self.ev(n.slice)
+        try:
+            return b[k]
+        except (KeyError, IndexError, TypeError):
+            raise Raised(n)
+
+    def e_JoinedStr(self, n):
+        raise Unknown("f-string")
+
+    def e_Call(self, n):
+        if isinstance(n.func, ast.Attribute) and n.func.attr in ("get", "keys", "values", "items") and not n.keywords:
+            try:
+                b = self.ev(n.func.value)
+            except Unknown:
+                b = None
+            if isinstance(b, dict):
+                a = [self.ev(x) for x in n.args]
+                if n.func.attr == "get" and 1 <= len(a) <= 2:
+                    return b.get(a[0], a[1] if len(a) == 2 else None)
+                if not a:
+                    return list(getattr(b, n.func.attr)())
+        return Evaluator.e_Call(self, n)
+
+
+def _class_level_values(repo, rel, cname):
+    """name -> value expression of the class-level assignments of `cname` and its bases in the same module (most derived wins)."""
+    out = {}
+    classes = repo.classes(rel)
+    todo, seen = [cname], set()
+    while todo:
+        k = todo.pop(0)
+        if k in seen or k not in classes:
+            continue
+        seen.add(k)
+        for n in classes[k].body:
+            if isinstance(n, ast.Assign):
+                for t in n.targets:
+                    if isinstance(t, ast.Name):
+                        out.setdefault(t.id, n.value)
+        todo += [b.id for b in classes[k].bases if isinstance(b, ast.Name)]
+    return out
+
+
+class ActionAttrMap(object):
+    """ControlAction.__init__ as a function  attribute string -> value of self._private_attribute (the field run_control_action writes).
+
+    Decided by evaluating the constructor body on the concrete attribute string (sa/peval.py), so an if/elif chain, early
+    assignments, a conditional expression or a lookup table (local, class-level or module-level dict with .get / [] / `in`)
+    all give the same map.  Anything the evaluator cannot follow is an ExtractError, never a guess."""
+
+    def __init__(self, repo):
+        self.repo = repo
+        self.ini = repo.func(CTRL, "ControlAction.__init__")
+        self.cls_values = _class_level_values(repo, CTRL, "ControlAction")
+        self.cache = {}
+
+    def _static(self, name):
+        # ControlAction.<X> / bare module-level <X>: literal tables only
+        nm = name.split(".")[-1] if name.startswith("ControlAction.") else name
+        if name.startswith("ControlAction.") and nm in self.cls_values:
+            return _MapEvaluator({}, self._static).ev(self.cls_values[nm])
+        if "." not in name:
+            try:
+                v = self.repo.module_assign(CTRL, name)
+            except AnchorError:
+                v = None
+            if v is not None:
+                return _MapEvaluator({}, self._static).ev(v)
+        raise Unknown("unbound name %s" % name)
+
+    def _attr(self, base, attr):
+        if isinstance(base, Obj) and base.name == "self" and attr == "__class__":
+            return Obj("type(self)", {})
+        if isinstance(base, Obj) and base.name in ("self", "type(self)") and attr not in base.attrs and attr in self.cls_values:
+            return _MapEvaluator({}, self._static).ev(self.cls_values[attr])
+        return NotImplemented
+
+    @staticmethod
+    def _call(name, n, ev):
+        if name == "hasattr":
+            return True                       # the constructor rejects attributes the target does not have: evaluate the accepting path
+        if name == "type" and len(n.args) == 1 and unparse(n.args[0]) == "self":
+            return Obj("type(self)", {})
+        if name.startswith("super(") or name.startswith("super.") or name == "super" or name.endswith(".__init__"):
+            return None
+        if isinstance(n.func, ast.Attribute) and isinstance(n.func.value, ast.Call) and unparse(n.func.value.func) == "super":
+            return None
+        return NotImplemented
+
+    def __call__(self, attribute):
+        if attribute not in self.cache:
+            me = Obj("self", {})
+            ev = _MapEvaluator({"self": me, "target_obj": Obj("target", {}), "attribute": attribute, "value": Obj("value", {})},
+                               self._static, self._call, self._attr)
+            try:
+                ev.run(self.ini.body)
+            except Raised as e:
+                raise ExtractError("ControlAction.__init__ raises for attribute %r (line %s)" % (attribute, getattr(e.node, "lineno", "?")))
+            except Unknown as e:
+                raise ExtractError("ControlAction.__init__: attribute map not evaluable for %r: %s" % (attribute, e))
+            if "_private_attribute" not in me.attrs or not isinstance(me.attrs["_private_attribute"], str):
+                raise ExtractError("ControlAction.__init__: no string stored to self._private_attribute for attribute %r (found %r)"
+                                   % (attribute, me.attrs.get("_private_attribute")))
+            self.cache[attribute] = me.attrs["_private_attribute"]
+        return self.cache[attribute]
+
+
+def through_temporaries(fnode, e):
+    """resolve a local Name through its single plain assignment in the function (a hoisted temporary), repeatedly."""
+    for _ in range(8):
+        if not isinstance(e, ast.Name):
+            break
+        stores = [n for n in walk(fnode) if isinstance(n, ast.Name) and isinstance(n.ctx, ast.Store) and n.id == e.id]
+        asg = [n for n in walk(fnode) if isinstance(n, ast.Assign) and len(n.targets) == 1 and len(stores) == 1 and n.targets[0] is stores[0]]
+        if not asg or any(a.arg == e.id for a in fnode.args.args):
+            break
+        e = asg[0].value
+    return e
 
 
 def action_vocabulary(repo, universe):
@@ -407,21 +519,22 @@ def run(repo, chk):
     chk.floor("R-C11-1", 40)
 
     # ---------------------------------------------------------------- R-C11-1b setattr targets
-    ini, amap = action_attr_map(repo)
+    amap = ActionAttrMap(repo)
+    ini = amap.ini
     chk.fn(ini)
     pubv, intv, dyn = action_vocabulary(repo, uni)
     rca = repo.func(CTRL, "ControlAction.run_control_action")
     sa = [c for c in calls(rca) if isinstance(c.func, ast.Name) and c.func.id == "setattr"]
-    chk.expect(len(sa) == 1 and unparse(sa[0].args[1]) == "self._private_attribute", "R-C11-1b",
+    chk.expect(len(sa) == 1 and len(sa[0].args) == 3 and unparse(through_temporaries(rca, sa[0].args[1])) == "self._private_attribute", "R-C11-1b",
                "ControlAction.run_control_action writes setattr(target, self._private_attribute, value)", loc(rca), found=[norm(c) for c in sa])
     rci = repo.func(CTRL, "_InternalControlAction.run_control_action")
     sa = [c for c in calls(rci) if isinstance(c.func, ast.Name) and c.func.id == "setattr"]
-    chk.expect(len(sa) == 1 and unparse(sa[0].args[1]) == "self._internal_attr", "R-C11-1b",
+    chk.expect(len(sa) == 1 and len(sa[0].args) == 3 and unparse(through_temporaries(rci, sa[0].args[1])) == "self._internal_attr", "R-C11-1b",
                "_InternalControlAction.run_control_action writes setattr(target, self._internal_attr, value)", loc(rci), found=[norm(c) for c in sa])
-    chk.sample({"ControlAction_attribute_map": amap, "attribute_strings_passed": sorted(pubv), "internal_attribute_strings": sorted(intv),
+    chk.sample({"ControlAction_attribute_map": {v: amap(v) for v in sorted(set(pubv) | {"status", "setting", "leak_status"})}, "attribute_strings_passed": sorted(pubv), "internal_attribute_strings": sorted(intv),
                 "dynamic_sites": [f.qual.split("::")[1] for f, c in dyn]})
     for v, sites in sorted(pubv.items()):
-        priv = amap.get(v, v)
+        priv = amap(v)
         f, c = sites[0]
         ok = priv in all_rt
         chk.expect(ok, "R-C11-1b", "ControlAction attribute %r is mapped to a run-time field" % v, loc(f.node, c),
@@ -519,6 +632,9 @@ def run(repo, chk):
     chk.floor("R-C11-3", 30)
 
 
+_CHAIN = ("        self._private_attribute = attribute\n        if attribute == 'status':\n            self._private_attribute = '_user_status'\n"
+          "        elif attribute == 'leak_status':\n            self._private_attribute = '_leak_status'\n"
+          "        elif attribute == 'setting':\n            self._private_attribute = '_setting'\n")
 WITNESSES = [
     dict(name="results-stored-into-definition-field", file=HYD, old="            node._pressure = m.head[name].value - node.elevation\n",
          new="            node._pressure = m.head[name].value - node.elevation\n            node._elevation = node.elevation\n", rule="R-C11-1"),
@@ -536,6 +652,31 @@ WITNESSES = [
          new="    def _reset(self):\n        pass  #", rule="R-C11-3"),
     dict(name="epanet-writer-renames-element", file=EIO, old="                if all_control.name == '':\n                    all_control._name = text\n",
          new="                all_control._name = text\n", rule="R-C11-1"),
+    # ControlAction.__init__'s attribute map: same map in other shapes stays quiet, a wrong entry in any shape fires
+    dict(name="action-map-as-class-level-table-preserving", file=CTRL, old=_CHAIN,
+         new="        self._private_attribute = self._PRIVATE_ATTRIBUTES.get(attribute, attribute)\n",
+         also=[("    def __init__(self, target_obj, attribute, value):\n        super(ControlAction, self).__init__()\n",
+                "    _PRIVATE_ATTRIBUTES = {'status': '_user_status',\n                           'leak_status': '_leak_status',\n                           'setting': '_setting'}\n\n"
+                "    def __init__(self, target_obj, attribute, value):\n        super(ControlAction, self).__init__()\n")], silent=True),
+    dict(name="action-map-as-local-table-and-membership-preserving", file=CTRL, old=_CHAIN,
+         new="        private = dict_ = {'status': '_user_status', 'leak_status': '_leak_status', 'setting': '_setting'}\n"
+             "        name = dict_[attribute] if attribute in dict_ else attribute\n        self._private_attribute = name\n", silent=True),
+    dict(name="action-map-as-conditional-expressions-preserving", file=CTRL, old=_CHAIN,
+         new="        self._private_attribute = ('_user_status' if attribute == 'status' else '_leak_status' if attribute == 'leak_status'\n"
+             "                                   else '_setting' if attribute == 'setting' else attribute)\n", silent=True),
+    dict(name="action-map-in-helper-with-early-returns-preserving", file=CTRL, old=_CHAIN,
+         new="        self._private_attribute = self._private_name(attribute)\n\n    @staticmethod\n    def _private_name(attribute):\n"
+             "        if attribute == 'status':\n            return '_user_status'\n        if attribute == 'leak_status':\n            return '_leak_status'\n"
+             "        if attribute == 'setting':\n            return '_setting'\n        return attribute\n", silent=True),
+    dict(name="action-map-table-writes-initial-setting", file=CTRL, old=_CHAIN,
+         new="        self._private_attribute = {'status': '_user_status', 'leak_status': '_leak_status', 'setting': 'initial_setting'}.get(attribute, attribute)\n",
+         rule="R-C11-1b"),
+    dict(name="action-map-table-loses-status-entry", file=CTRL, old=_CHAIN,
+         new="        self._private_attribute = {'leak_status': '_leak_status', 'setting': '_setting'}.get(attribute, attribute)\n", rule="R-C11-1b"),
+    dict(name="action-setattr-through-temporary-preserving", file=CTRL, old="        setattr(self._target_obj, self._private_attribute, self._value)\n",
+         new="        field = self._private_attribute\n        setattr(self._target_obj, field, self._value)\n", silent=True),
+    dict(name="action-setattr-public-attribute", file=CTRL, old="        setattr(self._target_obj, self._private_attribute, self._value)\n",
+         new="        field = self._attribute\n        setattr(self._target_obj, field, self._value)\n", rule="R-C11-1b"),
     dict(name="simulator-internal-store-preserving", file=CORE, old="        self._report_timestep = self._wn.options.time.report_timestep\n",
          new="        self._report_timestep = self._wn.options.time.report_timestep\n        self._n_runs = 1\n", silent=True),
 ]
